@@ -4,6 +4,7 @@ package main
 
 import (
 	"fmt"
+	"os"
 	"strings"
 
 	"github.com/krotik/ecal/parser"
@@ -90,6 +91,42 @@ func c08Gen(g *Gen) {
 				emit("nest3.right-prefix", fmt.Sprintf("(t %s (%sf)) %s t", o1, p, o2), true)
 				emit("nest3.right-prefix", fmt.Sprintf("(a %s %sb) %s c", o1, p, o2), true)
 			}
+		}
+	}
+
+	// ---- all operator trees with exactly 3 operators (20 infix, 3 prefix, let), fully parenthesised in the
+	// source: thorough tier, and whenever the bracket rule could not be established from the source
+	if g.Thorough() || os.Getenv("C08_AMPLIFY") != "" {
+		var trees func(n int) []string
+		memo := map[int][]string{}
+		trees = func(n int) []string {
+			if r, ok := memo[n]; ok {
+				return r
+			}
+			var r []string
+			if n == 0 {
+				r = []string{"a"}
+			} else {
+				for _, sub := range trees(n - 1) {
+					for _, p := range append(append([]string{}, c08Pre...), "let ") {
+						r = append(r, "("+p+sub+")")
+					}
+				}
+				for i := 0; i < n; i++ {
+					for _, l := range trees(i) {
+						for _, rr := range trees(n - 1 - i) {
+							for _, o := range c08Bin {
+								r = append(r, "("+l+" "+o+" "+rr+")")
+							}
+						}
+					}
+				}
+			}
+			memo[n] = r
+			return r
+		}
+		for _, e := range trees(3) {
+			emit("nest3.all", e, false)
 		}
 	}
 
